@@ -109,6 +109,9 @@ Inductive it :=
 | IPlus (s : it) (rhs : it)                 (* &plus{Seq, rhs};  rhs = INil once swapped in *)
 | IJoin (cur : it) (lhs : it) (j : jfun).   (* &join{Seq, lhs, rhs} *)
 
+(* Not represented: [filter.f == nil] (the constructor always stores the function it was given and nothing
+   ever clears it; the harness passes no nil functions), so IFilt carries a plain code. *)
+
 Definition is_nil (i : it) : bool := match i with INil => true | _ => false end.
 
 (* Value(): embedded Seq promotes Value() of the inner iterator; fmap overrides it.
